@@ -122,10 +122,39 @@ def real_decode_sub(flavour_name, raw):
         return None
 
 
+def real_decode_sub_fn(flavour_name, raw):
+    """the public function `deserialize(data, flavour)` (a different entry point than the class)"""
+    from netqasm.lang.parsing.binary import deserialize
+    try:
+        return deserialize(bytes(raw), flavour=FLAVOURS[flavour_name]())
+    except Exception:
+        return None
+
+
+def mutate_operand_in_place(o, rng):
+    """in-place edit of a mutable operand object (ArrayEntry / ArraySlice); returns True if edited"""
+    if isinstance(o, op.ArrayEntry):
+        if rng.random() < 0.5:
+            o.index = mk_reg(rng.randrange(4), rng.randrange(16))
+        else:
+            o.address = op.Address(rng.choice(I32_BOUND))
+        return True
+    if isinstance(o, op.ArraySlice):
+        k = rng.randrange(3)
+        if k == 0:
+            o.start = mk_reg(rng.randrange(4), rng.randrange(16))
+        elif k == 1:
+            o.stop = mk_reg(rng.randrange(4), rng.randrange(16))
+        else:
+            o.address = op.Address(rng.choice(I32_BOUND))
+        return True
+    return False
+
+
 # ---- generators ---------------------------------------------------------------
 
 REG_BOUND = [(0, 0), (3, 15), (1, 1), (2, 8), (3, 0), (0, 15), (2, 5), (1, 10)]
-I32_BOUND = [0, 1, -1, I32_MAX, I32_MIN, 255, 256, 65535, 65536, -256, 0x01020304, -0x01020304,
+I32_BOUND = [0, 1, -1, -2, I32_MAX, I32_MIN, 255, 256, 65535, 65536, -256, 0x01020304, -0x01020304,
              0x7F000000, 0x00FF00FF]
 U8_BOUND = [0, 1, 255, 128, 127, 2, 0x55, 0xAA]
 
